@@ -242,7 +242,7 @@ theorem label_int {a : Ast} (F : SFacts a) (swTy : BasicType) (sv : Val) (d : Na
             have hdisc : enumDisc a e' v' = some i := by
               simp [enumDisc, enumOf, Ast.getType, hen, hf, hwv]
             have hiv : (v : Int) = i := by omega
-            have hpm : patMatches a (.guard e' v' swTy.asSafeString) sv =
+            have hpm : patMatches a (.guard e' v' (switchCastType a swTy).asSafeString) sv =
                 (match scrutInt sv with | some j => j == (v : Int) | none => false) := by
               rcases hsv' with rfl | ⟨rfl, _⟩ <;> simp [patMatches, scrutInt, hdisc, hiv]
             rw [hpm, hcmp]
